@@ -121,6 +121,19 @@ func (e *didEnv) addr(text string) string {
 	return hxs(text)
 }
 
+// begin / abort a discarded branch
+func (e *didEnv) begin() func() {
+	saved := e.ctx
+	e.ctx, _ = e.ctx.CacheContext()
+	inBranch = true
+	e.s.Emit("did.begin", "-")
+	return func() {
+		e.ctx = saved.WithBlockTime(e.ctx.BlockTime())
+		inBranch = false
+		e.s.Emit("did.abort", "-")
+	}
+}
+
 func (e *didEnv) reset() {
 	e.ctx, _ = e.c.DeliverCtx().CacheContext()
 	e.s.Emit("reset", "-")
@@ -191,7 +204,7 @@ func (e *didEnv) deliver(op string, m sdk.Msg, run func(g sdk.Context) error) bo
 		return "ok"
 	})
 	e.s.Emit(op, ans)
-	return ans == "ok"
+	return ans == "ok" && !inBranch
 }
 
 func (e *didEnv) create(m *didtypes.MsgCreateDIDRequest) bool {
@@ -535,8 +548,35 @@ func didHistory(e *didEnv, rng *rand.Rand, idents []*didIdent, relayers []string
 		}
 		return fmt.Sprintf("%s#key%d", it.did, 1+rng.Intn(len(it.keys)+1)), it.keys[rng.Intn(len(it.keys))]
 	}
+	inBranch = false
 	for i := 0; i < steps; i++ {
 		it := idents[rng.Intn(len(idents))]
+		// now and then a key rotation that happens only on a discarded branch; afterwards both the new key (at the
+		// sequence the branch reached) and the old key (at the committed sequence) are tried
+		if it.exists && len(it.authKey) > 0 && rng.Intn(10) == 0 {
+			var oldID string
+			var oldKey *didKey
+			ids := make([]string, 0, len(it.authKey))
+			for id := range it.authKey {
+				ids = append(ids, id)
+			}
+			sortStrings(ids)
+			oldID, oldKey = ids[0], it.authKey[ids[0]]
+			doc, auth := genDoc(rng, it.did, it)
+			abort := e.begin()
+			e.update(&didtypes.MsgUpdateDIDRequest{Did: it.did, Document: doc, VerificationMethodId: oldID, Signature: e.sign(oldKey, doc, it.seq), FromAddress: relayers[0]})
+			if rng.Intn(2) == 0 {
+				e.deactivate(&didtypes.MsgDeactivateDIDRequest{Did: it.did, VerificationMethodId: oldID, Signature: e.sign(oldKey, &didtypes.DIDDocument{Id: it.did}, it.seq+1), FromAddress: relayers[0]})
+			}
+			abort()
+			doc2, _ := genDoc(rng, it.did, it)
+			for id, k := range auth {
+				e.update(&didtypes.MsgUpdateDIDRequest{Did: it.did, Document: doc2, VerificationMethodId: id, Signature: e.sign(k, doc2, it.seq+1), FromAddress: relayers[1]})
+				break
+			}
+			e.query(it.did)
+			continue
+		}
 		switch r := rng.Intn(20); {
 		case r < 5: // create
 			docID := it.did
